@@ -179,6 +179,7 @@ def check_history(chk, states, tmpdir):
 # ---- code -> spec: recorded databox histories validated by TLC against TraceDatabox.tla -----------------------------------------
 T_ULO, T_UHI = -12, 24
 T_HANDLES = ("h1", "h2", "h3")
+INF_SENTINEL = 500000000        # +-inf is logged as +-INF_SENTINEL (no finite value of the driver comes near it)
 NAN, NONE = tlaval.MV("NaN"), tlaval.MV("None")
 NAMES = ("a", "b", "c", "d", "e", "k", "zz", "p", "q1", "r", "x_a", "x_b", "x_c")
 DESCS = ("", "", "alpha", "beta, with a comma", "gamma \"quoted\"")
@@ -230,6 +231,8 @@ def _observe(st):
                     for v in row:
                         if isinstance(v, float) and math.isnan(v):
                             r.append(NAN)
+                        elif isinstance(v, float) and math.isinf(v):
+                            r.append(INF_SENTINEL if v > 0 else -INF_SENTINEL)
                         else:
                             sv = v * st.scale
                             if abs(sv - round(sv)) > 1e-6:
@@ -265,6 +268,8 @@ def _rand_item(rnd, st):
         for edge in (0, n - 1):
             if all(math.isnan(v) for v in rows[edge]):
                 rows[edge][rnd.randrange(nv)] = float(rnd.randint(1, top)) / st.scale
+        if rnd.random() < 0.25:            # an infinite value is a value like any other (only NaN is "missing")
+            rows[rnd.randrange(n)][rnd.randrange(nv)] = rnd.choice((math.inf, -math.inf))
         x = ir.Series(num_variants=nv, start=w.per(rnd.randint(-3, 6)), values=np.array(rows, dtype=float))
     d = rnd.choice(DESCS)
     if d:
@@ -277,7 +282,7 @@ def _spec_item(st, x, f):
     if isinstance(x, ir.Series):
         w = world(f)
         nv, start, rows = w.project(x)
-        rows = tuple(tuple(NAN if math.isnan(v) else int(round(v * st.scale)) for v in row) for row in rows)
+        rows = tuple(tuple(NAN if math.isnan(v) else ((INF_SENTINEL if v > 0 else -INF_SENTINEL) if math.isinf(v) else int(round(v * st.scale))) for v in row) for row in rows)
         return {"kind": "ser", "f": f, "c": {"nv": nv, "start": NONE if start is None else int(start), "rows": rows},
                 "desc": x.get_description() or "", "lz": False}
     if isinstance(x, list):
@@ -409,7 +414,12 @@ def _propose(rnd, st):
         cand = [n for n in A.keys() if (not _is_ser(A, n) and not isinstance(A[n], list)) or (_is_ser(A, n) and _freq_of(st, A[n]) == f and A[n].shape[1] == 1 and A[n].start is not None)]
         absent = [n for n in NAMES if n not in A.keys()]
         fbn = rnd.choice(absent + cand) if (absent + cand) else "zz"
+        withinf = [n for n in cand if _is_ser(A, n) and np.isinf(A[n].data).any()]
+        if withinf and rnd.random() < 0.7:
+            fbn = rnd.choice(withinf)          # a fallback declared for a series that holds an infinite value: only NaN is filled
         names = list(rnd.sample(cand, rnd.randint(0, min(3, len(cand)))))
+        if fbn in cand and fbn not in names and rnd.random() < 0.8:
+            names.append(fbn)
         if fbn in absent and rnd.random() < 0.6:
             names.append(fbn)
         if not names:
@@ -562,7 +572,7 @@ def rerecord_databox_trace(sc, tmpdir):
             if is_mv(c["start"]):
                 x = ir.Series(num_variants=c["nv"])
             else:
-                rows = np.array([[math.nan if is_mv(v) else v / st.scale for v in row] for row in c["rows"]], dtype=float)
+                rows = np.array([[math.nan if is_mv(v) else ((math.inf if v > 0 else -math.inf) if abs(v) == INF_SENTINEL else v / st.scale) for v in row] for row in c["rows"]], dtype=float)
                 x = ir.Series(num_variants=c["nv"], start=w.per(c["start"]), values=rows)
             if it["desc"]:
                 x.set_description(it["desc"])
